@@ -62,6 +62,11 @@ func (lockEngine) Generate(rng *rand.Rand, prop string, thorough bool) *Plan {
 				ops = append(ops, Op{K: "die"})
 			} else {
 				ops = append(ops, Op{K: "close"})
+				if rng.Intn(5) == 0 {
+					// the same handle is closed a second time later (defer db.Close() after an explicit Close):
+					// whatever it returns, it must not touch a directory that somebody else may hold by then
+					ops = append(ops, Op{K: "reclose"})
+				}
 			}
 		}
 		p.Tasks = append(p.Tasks, ops)
@@ -265,7 +270,7 @@ func (l lockEngine) Execute(p *Plan) *RunResult {
 				ti := ti
 				ops := p.Tasks[ti]
 				clients = append(clients, sim.Go(fmt.Sprintf("opener%d", ti), func() {
-					var db *pogreb.DB
+					var db, stale *pogreb.DB
 					var sf *sessionFS
 					var ses *lockSession
 					for _, op := range ops {
@@ -309,7 +314,14 @@ func (l lockEngine) Execute(p *Plan) *RunResult {
 									fail(violf("api-error", "task %d Close: %v", ti, err))
 								}
 								res.Probes["closed_cleanly"]++
+								stale = db
 								db = nil
+							}
+						case "reclose":
+							if db == nil && stale != nil {
+								_ = stale.Close() // error or nil: both fine
+								res.Probes["stale_handle_closed_again"]++
+								stale = nil
 							}
 						case "die":
 							if db != nil {
